@@ -61,12 +61,84 @@ const (
 	// callee (succeeds / reverts / does not exist)
 	eAuth         = nEffects
 	nAuthVariants = 36
+	// ePrecompile (FC families): a plain CALL to a precompiled contract; Node.A picks the
+	// precompile x (succeeding input, ample gas / rejected input, ample gas / gas 0) x value
+	// (0 / >0) x target account (absent / existing with balance and nonce)
+	ePrecompile = nEffects + 1
 )
 
 var kindName = []string{"CALL", "CALLV", "CALLCODE", "DELEGATECALL", "STATICCALL", "CREATE", "CREATE2"}
 var kindClass = []string{"call", "call", "callcode", "delegatecall", "staticcall", "create", "create"}
 var outcomeName = []string{"return", "revert", "invalid", "oog", "deposit-oog", "deposit-toobig"}
-var effectName = []string{"none", "sstore", "log", "value", "nonce", "selfdestruct", "tstore", "auth"}
+var effectName = []string{"none", "sstore", "log", "value", "nonce", "selfdestruct", "tstore", "auth", "precompile"}
+
+// the precompile table under test, probed once: a zero-filled input the precompile accepts and
+// one it rejects (where it has such inputs)
+type precInfo struct {
+	addr          common.Address
+	p             vm.PrecompiledContract
+	lenOK, lenBad int
+}
+
+var precTable []precInfo
+
+func initPrecompiles() {
+	if precTable != nil {
+		return
+	}
+	var addrs []common.Address
+	for a := range vm.PrecompiledContracts {
+		addrs = append(addrs, a)
+	}
+	sort.Slice(addrs, func(i, j int) bool { return string(addrs[i].Bytes()) < string(addrs[j].Bytes()) })
+	for _, a := range addrs {
+		pi := precInfo{addr: a, p: vm.PrecompiledContracts[a], lenOK: -1, lenBad: -1}
+		for _, l := range []int{0, 1, 32, 64, 96, 128, 160, 192, 213, 256, 288, 384, 512} {
+			var err error
+			if panicked, _, _ := fw.Try(func() { _, err = pi.p.Run(make([]byte, l)) }); panicked {
+				continue
+			}
+			if err == nil && pi.lenOK < 0 {
+				pi.lenOK = l
+			}
+			if err != nil && pi.lenBad < 0 {
+				pi.lenBad = l
+			}
+		}
+		precTable = append(precTable, pi)
+	}
+}
+
+type precVar struct{ pi, mode, value, exists int } // mode: 0 ok input, 1 rejected input, 2 gas 0
+
+func precVariant(a int) precVar { return precVar{a / 12, (a / 4) % 3, (a / 2) % 2, a % 2} }
+
+func (v precVar) String() string {
+	return fmt.Sprintf("%s,%s,value=%d,target=%s", precTable[v.pi].addr.GetHexString()[38:],
+		[]string{"accepted-input", "rejected-input", "gas0"}[v.mode], v.value, []string{"absent", "existing"}[v.exists])
+}
+
+// precVariants lists the variants that exist for the table under test.
+func precVariants() []int {
+	initPrecompiles()
+	var out []int
+	for a := 0; a < len(precTable)*12; a++ {
+		v := precVariant(a)
+		pi := precTable[v.pi]
+		if (v.mode == 1 && pi.lenBad < 0) || (v.mode != 1 && pi.lenOK < 0) {
+			continue
+		}
+		out = append(out, a)
+	}
+	return out
+}
+
+func (v precVar) inputLen() int {
+	if v.mode == 1 {
+		return precTable[v.pi].lenBad
+	}
+	return precTable[v.pi].lenOK
+}
 
 type authVar struct{ sig, value, wrongNonce, callee int }
 
@@ -93,8 +165,9 @@ type Node struct {
 	caddr  common.Address // create kinds: address derived by the model
 	ctx    common.Address // address the frame ran as (set by the model)
 	// model bookkeeping
-	ran  bool
-	fail string // "" | outcome | static
+	ran          bool
+	fail         string // "" | outcome | static
+	calleeFailed bool   // ePrecompile: the model says the called precompile failed
 }
 
 func (n *Node) isCreate() bool { return n.K == kCreate || n.K == kCreate2 }
@@ -103,6 +176,10 @@ func (n *Node) String() string {
 	eff := effectName[n.E]
 	if n.E == eAuth {
 		eff = "auth(" + authVariant(n.A).String() + ")"
+	}
+	if n.E == ePrecompile {
+		initPrecompiles()
+		eff = "precompile(" + precVariant(n.A).String() + ")"
 	}
 	s := fmt.Sprintf("%s/%s/%s", kindName[n.K], eff, outcomeName[n.O])
 	if len(n.C) > 0 {
@@ -233,7 +310,7 @@ func number(root *Node) []*Node {
 	walk = func(n, p *Node, d int) {
 		n.idx, n.depth, n.parent = len(all), d, p
 		n.addr = fixedAddr(0xF0, n.idx)
-		n.ran, n.fail, n.blob = false, "", nil
+		n.ran, n.fail, n.blob, n.calleeFailed = false, "", nil, false
 		all = append(all, n)
 		for _, c := range n.C {
 			walk(c, n, d+1)
@@ -275,6 +352,15 @@ func (b *builder) gen(n *Node) []byte {
 	case eSelfdestruct:
 		p.Push(0).Push(0).Push(0).Push(0).PushN(20, helperAddr.Bytes()).PushN(8, allGas).Op(vm.DELEGATECALL)
 		p.PushLabel("sdok").Op(vm.JUMPI).Op(vm.INVALID).Label("sdok")
+	case ePrecompile:
+		v := precVariant(n.A)
+		p.Push(0).Push(0).Push(v.inputLen()).PushN(2, u16(0x400)).Push(int64(v.value)*authValue(n.idx)).PushN(20, precTable[v.pi].addr.Bytes())
+		if v.mode == 2 {
+			p.Push(0)
+		} else {
+			p.PushN(8, allGas)
+		}
+		p.Op(vm.CALL, vm.POP)
 	case eAuth:
 		v := authVariant(n.A)
 		if v.sig != 1 {
@@ -430,7 +516,8 @@ func (m *model) exec(n *Node, ctx common.Address, ro bool) bool {
 	n.ran = true
 	n.ctx = ctx
 	if n.E != eNone {
-		if ro {
+		// a value-less CALL to a precompile is not a state-changing operation
+		if ro && !(n.E == ePrecompile && precVariant(n.A).value == 0) {
 			n.fail = "static"
 			return false
 		}
@@ -475,6 +562,29 @@ func (m *model) effect(n *Node, ctx common.Address) {
 		m.owner[a] = n.idx
 		na := m.w.acct(a)
 		na.exists, na.nonce, na.code = true, 1, "00"
+	case ePrecompile:
+		v := precVariant(n.A)
+		pi := precTable[v.pi]
+		val := int64(v.value) * authValue(n.idx)
+		if m.w.acct(ctx).bal < val {
+			return // the CALL fails before the callee is entered
+		}
+		in := make([]byte, v.inputLen())
+		_, runErr := pi.p.Run(in)
+		ok := runErr == nil
+		if v.mode == 2 {
+			supplied := uint64(0)
+			if val != 0 {
+				supplied = vm.CallStipend
+			}
+			ok = ok && supplied >= pi.p.RequiredGas(in)
+		}
+		if !ok {
+			n.calleeFailed = true // the callee frame failed: nothing of it may remain
+			return
+		}
+		m.transfer(ctx, pi.addr, val)
+		m.w.acct(pi.addr).touched = true // a touched, possibly empty account: existence not judged
 	case eAuth:
 		// AUTHCALL outside a static context: the authorising account's nonce bump is an action of
 		// the invoking frame (like the creator's bump of CREATE); the callee is a frame of its own
@@ -703,8 +813,18 @@ func runTree(root *Node, pm int) (res treeResult) {
 		st.SetBalance(benAddr, big.NewInt(1<<45))
 	}
 	hasAuth := false
+	var precAddrs []common.Address
 	for _, n := range nodes {
 		hasAuth = hasAuth || n.E == eAuth
+		if n.E == ePrecompile {
+			initPrecompiles()
+			v := precVariant(n.A)
+			precAddrs = append(precAddrs, precTable[v.pi].addr)
+			if v.exists == 1 {
+				st.SetNonce(precTable[v.pi].addr, 1)
+				st.SetBalance(precTable[v.pi].addr, big.NewInt(1<<35))
+			}
+		}
 	}
 	if hasAuth {
 		st.SetCode(calleeOK, asm.New().Push(0x55).Push(0).Op(vm.CALLDATALOAD, vm.SSTORE, vm.STOP).Bytes())
@@ -717,6 +837,7 @@ func runTree(root *Node, pm int) (res treeResult) {
 		slots = append(slots, ownSlot(i))
 	}
 	base := append(append([]common.Address{}, callAddrs...), sinkAddr, benAddr, helperAddr, burnerAddr, treeOrigin)
+	base = append(base, precAddrs...)
 	if hasAuth {
 		base = append(base, calleeOK, calleeRev, calleeNone)
 		for _, n := range nodes {
@@ -793,6 +914,9 @@ func runTree(root *Node, pm int) (res treeResult) {
 	for _, n := range nodes {
 		if n.E == eAuth {
 			m.owner[authority(n.idx)] = n.idx
+		}
+		if n.E == ePrecompile {
+			m.owner[precTable[precVariant(n.A).pi].addr] = n.idx
 		}
 	}
 	initWorld := m.w.copy()
@@ -1029,6 +1153,9 @@ func blame(nodes []*Node, d diff) string {
 				}
 			}
 			return "missing:" + via
+		}
+		if f.calleeFailed {
+			return "precompile-callee-failed"
 		}
 		return "surviving-frame:" + kindClass[f.K]
 	}
